@@ -320,6 +320,18 @@ pub fn run_mode(ctx: &mut Ctx, c12: bool) {
             if c12 {
                 let tag = if key_tie(&u[i], &u[j]) { "kf-c12-map-key-exact" } else { "gen" };
                 ctx.prop(tag, &format!("c12cmp {} {}", texts[i], texts[j]), ord(o));
+                // the zero-copy type has its own copy of the comparison: judged by the same oracle wherever it answers
+                // differently from the owned type (where it answers alike, the line above has judged it)
+                let ob = std::panic::catch_unwind(|| BorrowedTerm::from(&u[i]).cmp(&BorrowedTerm::from(&u[j])));
+                ctx.count("pairs_borrowed_compared");
+                match ob {
+                    Ok(ob) if ob == o => {}
+                    Ok(ob) => {
+                        ctx.count("pairs_borrowed_differs_from_owned");
+                        ctx.prop(tag, &format!("c12cmp {} {}", texts[i], texts[j]), ord(ob));
+                    }
+                    Err(_) => ctx.fail("c12-borrowed-cmp-panics", &format!("{} {}", texts[i], texts[j])),
+                }
             } else {
                 ctx.tie("gen", &format!("c11cmp {} {}", texts[i], texts[j]), ord(o));
             }
